@@ -136,7 +136,7 @@ fn continuation(script: &Script, dir: &TempDir, log: mrecordlog::MultiRecordLog,
             match result {
                 Ok(reopened) => {
                     let st = observe(script, &reopened, &dir.path, seed ^ idx as u64);
-                    lines.push(json!({"ev": "end", "i": 1000 + idx, "res": {"k": "ok", "last": -1, "evicted": 0, "wal": 0}, "st": st, "io": io_json(&events)}));
+                    lines.push(json!({"ev": "end", "i": 1000 + idx, "res": {"k": "ok", "last": -1, "evicted": 0, "wal": 0}, "st": st, "io": io_json(&events), "ent": crate::exec::entries_json(script, &events)}));
                     log = Some(reopened);
                 }
                 Err(err) => {
@@ -155,7 +155,7 @@ fn continuation(script: &Script, dir: &TempDir, log: mrecordlog::MultiRecordLog,
             break;
         }
         let st = observe(script, log.as_ref().unwrap(), &dir.path, seed ^ idx as u64);
-        lines.push(json!({"ev": "end", "i": 1000 + idx, "res": res, "st": st, "io": io_json(&events)}));
+        lines.push(json!({"ev": "end", "i": 1000 + idx, "res": res, "st": st, "io": io_json(&events), "ent": crate::exec::entries_json(script, &events)}));
     }
     lines
 }
